@@ -2,7 +2,7 @@
     [gen_square_rows] / [gen_tris_rows] are TRANSLATED from grid.rs on every run;
     [table_beta rows K nx ny i d] is beta_i(d) as the builder writes it from those rows. *)
 From Coq Require Import ZArith List Bool.
-From HC Require Import Build.GenGrid Build.Grid2 Build.Grid2Gen.
+From HC Require Import Build.GenGrid Build.Grid2 Build.Grid2Gen Build.Grid3Laws.
 Import ListNotations.
 Open Scope Z_scope.
 
@@ -47,3 +47,12 @@ Theorem C12_faces_stay_in_cell : forall S nx ny, spec_ok S = true -> 0 < nx -> 0
   dix S nx (gbeta S nx ny 1 d) = dix S nx d /\ diy S nx (gbeta S nx ny 1 d) = diy S nx d.
 Proof. exact grid_b1_same_cell. Qed.
 Print Assumptions C12_faces_stay_in_cell.
+
+(** 3D (partial): the translated corner table of the hexahedral builder places every local dart
+    at a lattice corner of its cell, with the length of its own axis. *)
+Theorem C12_hex_corner_table :
+  forallb hex_corner_ok (map Z.of_nat (seq 0 24)) = true /\
+  forallb (fun c => Nat.eqb (length (filter (fun p => hex_corner_code p =? c) (map Z.of_nat (seq 0 24)))) 3)
+          (map Z.of_nat (seq 0 8)) = true.
+Proof. exact hex_corner_table_ok. Qed.
+Print Assumptions C12_hex_corner_table.
